@@ -1256,7 +1256,9 @@ def instrument(rec, patches):
                     if o.market_id != mb.market_id:
                         continue
                     ot = o.order_type
-                    lineorder = ot.ORDER_TYPE.name == "LIMIT" and ot.price_ladder_definition == "LINE_RANGE"
+                    # a line order is an order of a line market (read from the market, not from what the order says of itself)
+                    lineorder = ot.ORDER_TYPE.name == "LIMIT" and (mb.market_definition.betting_type == "LINE" if mb.market_definition is not None and mb.market_definition.betting_type
+                                                                   else ot.price_ladder_definition == "LINE_RANGE")
                     settle[lab] = {
                         "profit": rec._safe(lambda: o.profit),
                         "rstatus": o.runner_status or "NA",
